@@ -4,5 +4,9 @@ import J5V.Props.C19
 #print axioms J5V.Props.C19.C19_no_panic
 #print axioms J5V.Props.C19.C19_wellformed
 #print axioms J5V.Props.C19.C19_fmtDiffs_wellformed
+#print axioms J5V.Props.C19.C19_apply_eq_fmt_partial
+#print axioms J5V.Props.C19.C19_fmtDiffs_apply
+#print axioms J5V.Props.C19.C19_apply_document
+#print axioms J5V.Props.C19.trailingBlankB_sound
 #print axioms J5V.Props.C19.C19_src_fmtDiffs_conds
 #print axioms J5V.Props.C19.C19_src_rangeLines
